@@ -718,6 +718,29 @@ fn scale(tier: Tier, totals: &mut Totals) {
             );
         }
     }
+    // rm with several paths, one of them a non-empty directory named without -r (a path rm refuses): the refused
+    // directory stays as it is with its content and, wherever it stands, no path outside the named ones is touched.
+    // Whether the other named paths are gone is not compared: the documentation does not say whether rm goes on
+    // behind a path it refuses (seed C18y, withdrawn as outside the property as stated)
+    for dir_at in 0..3usize {
+        let mut names: Vec<String> = vec!["${d}/m/a.txt".into(), "${d}/m/b b.txt".into()];
+        names.insert(dir_at, "${d}/m/sub".into());
+        let quoted: Vec<String> = names.iter().map(|n| format!("\"{}\"", n)).collect();
+        let text = format!(
+            "d = set \"{d}\"\nwritefile ${{d}}/m/a.txt one\nwritefile \"${{d}}/m/b b.txt\" two\nwritefile ${{d}}/m/sub/inner.txt four\nwritefile ${{d}}/m/keep.txt five\nr = rm {paths}\nea = is_path_exists ${{d}}/m/a.txt\neb = is_path_exists \"${{d}}/m/b b.txt\"\nes = is_path_exists ${{d}}/m/sub/inner.txt\nek = is_path_exists ${{d}}/m/keep.txt\nrm -r ${{d}}/m",
+            d = d,
+            paths = quoted.join(" ")
+        );
+        crate::util::scale_case_totals(
+            totals,
+            &format!("rm-several refused-directory-at {}", dir_at),
+            &text,
+            &[
+                ("es", Some("true".into())),
+                ("ek", Some("true".into())),
+            ],
+        );
+    }
     // bare names: the same operations with the scratch directory as working directory and the paths written
     // without any directory part (and as ./name), a file copied and moved onto itself under both spellings
     for name in ["a.txt", "a b.txt", "é.txt", "0", "no"] {
@@ -895,7 +918,7 @@ pub fn replay(case: &Value) -> Result<String, String> {
     Ok(out.join("\n").replace(&d, "<scratch>"))
 }
 
-pub const RULE: &str = "explicit-state breadth-first search from the empty directory to a fixpoint: writefile / appendfile with 3 contents, write/read binary file, readfile, touch, mkdir, cp and mv for every ordered pair of paths, rm, rm -r, rmdir, is_path_exists, is_file, is_dir, get_file_size and a recursive glob_array listing, over the paths {a.txt, d, d/b.txt, (d/e/c.txt,) 's p/ü.txt'} and the directories d/e and 's p'; operations that would exceed the entry or size bound are disabled; operations the documentation does not fix in the current state (directory sources of cp/mv, mv to a missing extension-less path, touch on a directory) are not generated. Each transition materialises the tree in a fresh scratch directory, runs the real command with absolute paths, snapshots the directory and compares output and the complete tree with the model (a failing operation must leave the tree unchanged). basename / dirname / join_path are swept separately (they do not depend on the tree). evaluations = transitions; distinct_nontrivial = distinct trees. Scale cases: write / read / size / cp / append / mv / overwrite with contents of 4095..65537 bytes (thorough: up to 5 MB), plain and with a two-byte character across the middle; 12 short contents that start or end with a byte order mark, line breaks, blanks, TAB, no-break / ideographic space, '#', a quote (write / read / size / cp / append). Bytes belong to their handle: read, change the file in one of 6 ways (or not), read again under one of 3 spellings of the path: two handles, each with the bytes of its moment, written out and released independently. Path functions by rule: paths of two and three elements from 12 names (blank, dots, hidden, multi-byte, CJK, emoji, combining mark), relative and absolute, with and without a trailing separator: basename, dirname, join_path. The path pool also has 19 elements that read as false, true, condition syntax, commands, options or special characters (0, no, false, set, not, -r, %, $x, a=b, #1 ...) Reads in every order: 3, 5, 6 (thorough 7, 9) files, every sequence of four reads over them in one long history, every 13 reads one file rewritten / appended to / copied over / moved away and back / removed and written again: each read gives what the file holds at that moment. Bare names: with the scratch directory as working directory, 5 names written without a directory part and as ./name: write, copy and move onto itself (4 spelling pairs), copy, move, append, size, remove. rm with several paths: three existing paths and one that does not exist at each place among them (or absent), with and without -r: exactly the named paths are gone.";
+pub const RULE: &str = "explicit-state breadth-first search from the empty directory to a fixpoint: writefile / appendfile with 3 contents, write/read binary file, readfile, touch, mkdir, cp and mv for every ordered pair of paths, rm, rm -r, rmdir, is_path_exists, is_file, is_dir, get_file_size and a recursive glob_array listing, over the paths {a.txt, d, d/b.txt, (d/e/c.txt,) 's p/ü.txt'} and the directories d/e and 's p'; operations that would exceed the entry or size bound are disabled; operations the documentation does not fix in the current state (directory sources of cp/mv, mv to a missing extension-less path, touch on a directory) are not generated. Each transition materialises the tree in a fresh scratch directory, runs the real command with absolute paths, snapshots the directory and compares output and the complete tree with the model (a failing operation must leave the tree unchanged). basename / dirname / join_path are swept separately (they do not depend on the tree). evaluations = transitions; distinct_nontrivial = distinct trees. Scale cases: write / read / size / cp / append / mv / overwrite with contents of 4095..65537 bytes (thorough: up to 5 MB), plain and with a two-byte character across the middle; 12 short contents that start or end with a byte order mark, line breaks, blanks, TAB, no-break / ideographic space, '#', a quote (write / read / size / cp / append). Bytes belong to their handle: read, change the file in one of 6 ways (or not), read again under one of 3 spellings of the path: two handles, each with the bytes of its moment, written out and released independently. Path functions by rule: paths of two and three elements from 12 names (blank, dots, hidden, multi-byte, CJK, emoji, combining mark), relative and absolute, with and without a trailing separator: basename, dirname, join_path. The path pool also has 19 elements that read as false, true, condition syntax, commands, options or special characters (0, no, false, set, not, -r, %, $x, a=b, #1 ...) Reads in every order: 3, 5, 6 (thorough 7, 9) files, every sequence of four reads over them in one long history, every 13 reads one file rewritten / appended to / copied over / moved away and back / removed and written again: each read gives what the file holds at that moment. Bare names: with the scratch directory as working directory, 5 names written without a directory part and as ./name: write, copy and move onto itself (4 spelling pairs), copy, move, append, size, remove. rm with several paths: three existing paths and one that does not exist at each place among them (or absent), with and without -r: exactly the named paths are gone; a non-empty directory named without -r at each place among two files: it stays with its content and nothing that was not named is touched (whether the other named paths go is not fixed by the documentation and not compared).";
 pub const ASSUMPTIONS: &[&str] = &["the scratch directory is on tmpfs (/dev/shm) or a local file system without symlinks, permissions left at their defaults", "the output of rm on a missing path and of cp / mv of a file onto itself is not compared (only the tree, which must be unchanged)"];
 pub const EXHAUSTIVE: bool = true;
 pub const WALL_CAP_S: (u64, u64) = (58, 1500);
